@@ -15,7 +15,7 @@ RULE = ("1-16 (thorough: 1-64) goroutines, each 3-10 uses of validate.Pattern / 
 
 
 def correspond(ctx, C):
-    n = 400 if ctx.tier == "quick" else 8000
+    n = 400 if ctx.tier == "quick" else 2500
     if ctx.search:
         n *= 3
     try:
